@@ -343,3 +343,605 @@ Proof.
     + cbn [length] in Hf. lia.
     + exists ts2. split; [|exact H2]. rewrite E2. cbn [map]. rewrite <- app_assoc. reflexivity.
 Qed.
+
+(* ---------- struct / oneof ---------- *)
+Definition tk_struct_head (s : isdef) : list atok :=
+  if is_oneof s then [kw S_oneof; kw (is_name s)]
+  else [kw S_struct; kw (is_name s)] ++ toks (pc_dict (is_dict s)) ++ (if is_root s then [kw S_root] else []).
+
+Lemma toks_struct : forall s, toks (pc_struct s) =
+  tk_struct_head s ++ [pu TkLBrace] ++ tk_fields (is_fields s) ++ [pu TkRBrace].
+Proof.
+  intros s. unfold pc_struct, tk_struct_head. rewrite !toks_app, toks_fields.
+  destruct (is_oneof s); [reflexivity|].
+  rewrite !toks_app, <- !app_assoc. cbn [toks flat_map tok1 app]. do 3 f_equal.
+  destruct (is_root s); reflexivity.
+Qed.
+
+Lemma nodup_str_NoDup : forall l, nodup_str l = true -> NoDup l.
+Proof.
+  induction l as [|x l IH]; intros H; [constructor|].
+  cbn [nodup_str] in H. apply andb_true_iff in H. destruct H as [H1 H2].
+  constructor; [|auto]. apply negb_true_iff in H1. apply mem_str_false_not_In. exact H1.
+Qed.
+
+Lemma length_tk_fields : forall fs, (length fs <= length (tk_fields fs))%nat.
+Proof.
+  induction fs as [|f fs IH]; [cbn [tk_fields flat_map length]; lia|].
+  cbn [tk_fields flat_map]. fold (tk_fields fs). rewrite toks_field, app_length. cbn [length]. lia.
+Qed.
+
+Lemma P_struct : forall s fuel ts sch rest, struct_pr s = true ->
+  map erase ts = toks (pc_struct s) ++ rest -> rest <> [] ->
+  top_level_used sch (is_name s) = false -> (2 <= fuel)%nat -> (length (is_fields s) < fuel)%nat ->
+  exists ts', parse_struct true fuel ts sch (is_oneof s) = Ok (ts', ast_struct s) /\ map erase ts' = rest.
+Proof.
+  intros s fuel ts sch rest Hs H Hr Hu Hf2 Hf.
+  unfold struct_pr in Hs. rewrite !andb_true_iff in Hs. destruct Hs as [[[[Hn Hmod] Hroot] Hnd] Hfs].
+  rewrite toks_struct in H. rewrite <- !app_assoc in H.
+  (* after the modifiers *)
+  assert (Hbody : forall ts1, map erase ts1 = [pu TkLBrace] ++ tk_fields (is_fields s) ++ [pu TkRBrace] ++ rest ->
+    exists ts',
+      (do ts <- eat TkLBrace ts1;
+       do (ts, fields) <- parse_struct_fields true fuel fuel ts [];
+       if is_root s && (match fields with [] => true | _ => false end) then perr ts MRootEmpty
+       else do ts <- eat TkRBrace ts; Ok (ts, mkISDef (is_name s) (is_oneof s) (is_dict s) (is_root s) fields false))
+      = Ok (ts', ast_struct s) /\ map erase ts' = rest).
+  { intros ts1 H1. cbn [app] in H1.
+    destruct (eat_ok _ _ _ _ _ H1 ltac:(ne)) as (ts2 & E2 & H2). rewrite E2. cbn [bind].
+    destruct (P_fields (is_fields s) fuel fuel ts2 [] ([pu TkRBrace] ++ rest) Hfs) as (ts3 & E3 & H3);
+      try assumption; try reflexivity; try discriminate.
+    { cbn [map app]. apply nodup_str_NoDup. exact Hnd. }
+    rewrite E3. cbn [bind app].
+    assert (Hre : is_root s && match map ast_field (is_fields s) with [] => true | _ :: _ => false end = false).
+    { destruct (is_root s); [|reflexivity]. destruct (is_fields s); [discriminate Hroot | reflexivity]. }
+    rewrite Hre. cbn [app] in H3.
+    destruct (eat_ok _ _ _ _ _ H3 Hr) as (ts4 & E4 & H4). rewrite E4. cbn [bind].
+    exists ts4. split; [reflexivity | exact H4]. }
+  unfold parse_struct. unfold tk_struct_head in H.
+  destruct (is_oneof s) eqn:Eo.
+  - (* oneof *)
+    apply andb_true_iff in Hmod. destruct Hmod as [Hd Hrt].
+    destruct (is_dict s) eqn:Ed; [|discriminate Hd]. destruct (is_root s) eqn:Er; [discriminate Hrt|].
+    cbn [app] in H.
+    destruct (tok_inv _ _ _ _ _ H ltac:(discriminate)) as (t0 & ts0 & -> & _ & _ & _ & H0 & A0).
+    rewrite A0. unfold kw at 1 in H0. rewrite (ident_ok_kind _ Hn) in H0.
+    destruct (tok_inv _ _ _ _ _ H0 ltac:(discriminate)) as (t1 & ts1 & -> & K1 & I1 & _ & H1 & A1).
+    rewrite is_cons, K1. cbn [tkind_eqb tkind_code N.eqb Pos.eqb negb]. rewrite cur_cons, I1, Hu, A1.
+    unfold parse_struct_modifiers. rewrite (kind_hdk _ _ H1 ltac:(discriminate)).
+    cbn [hdk hd a_kind pu bind].
+    destruct (Hbody ts1 H1) as (ts' & E' & H'). exists ts'. split; [exact E' | exact H'].
+  - (* struct *)
+    cbn [app] in H.
+    destruct (tok_inv _ _ _ _ _ H ltac:(discriminate)) as (t0 & ts0 & -> & _ & _ & _ & H0 & A0).
+    rewrite A0. unfold kw at 1 in H0. rewrite (ident_ok_kind _ Hn) in H0.
+    destruct (tok_inv _ _ _ _ _ H0 ltac:(destruct (is_dict s), (is_root s); discriminate))
+      as (t1 & ts1 & -> & K1 & I1 & _ & H1 & A1).
+    rewrite is_cons, K1. cbn [tkind_eqb tkind_code N.eqb Pos.eqb negb]. rewrite cur_cons, I1, Hu, A1.
+    unfold parse_struct_modifiers. rewrite toks_dict in H1.
+    destruct (is_dict s) as [|c d] eqn:Ed.
+    + destruct (is_root s) eqn:Er.
+      * cbn [app] in H1. rewrite (kind_hdk _ _ H1 ltac:(discriminate)). cbn [hdk hd a_kind kw].
+        rewrite wk_root.
+        destruct (tok_inv _ _ _ _ _ H1 ltac:(discriminate)) as (t2 & ts2 & -> & _ & _ & _ & H2 & A2).
+        rewrite A2. cbn [bind].
+        destruct (Hbody ts2 H2) as (ts' & E' & H'). exists ts'. split; [exact E' | exact H'].
+      * cbn [app] in H1. rewrite (kind_hdk _ _ H1 ltac:(discriminate)). cbn [hdk hd a_kind pu bind].
+        destruct (Hbody ts1 H1) as (ts' & E' & H'). exists ts'. split; [exact E' | exact H'].
+    + cbn [is_nil orb] in Hmod. apply andb_true_iff in Hmod. destruct Hmod as [Hd Hrt].
+      destruct (is_root s) eqn:Er; [discriminate Hrt|].
+      rewrite (kind_hdk _ _ H1 ltac:(discriminate)). cbn [app hdk hd a_kind kw]. rewrite wk_dict.
+      rewrite <- app_assoc in H1. cbn [app] in H1.
+      destruct (P_dict (c :: d) ts1 _ Hd H1 ltac:(discriminate)) as (ts2 & E2 & H2).
+      rewrite E2. cbn [bind].
+      destruct (Hbody ts2 H2) as (ts' & E' & H'). exists ts'. split; [exact E' | exact H'].
+Qed.
+
+(* ---------- multimap ---------- *)
+Definition outer_dict (t : itype) : str := match t with IArray _ d _ => d | _ => [] end.
+
+Lemma ftype_split : forall t, pc_type t ++ pc_dict (it_dict t) = pc_inner t ++ pc_dict (outer_dict t).
+Proof. intros [d|p d|n d|n d|n d|n d|e d r]; cbn [pc_inner outer_dict pc_dict]; try rewrite app_nil_r; reflexivity. Qed.
+
+Lemma P_mfield : forall t ts rest, ftype_ok true t = true ->
+  map erase ts = toks (pc_type t ++ pc_dict (it_dict t)) ++ rest -> rest <> [] -> hdk rest <> TkDict ->
+  exists ts', parse_multimap_field true ts = Ok (ts', ast_type t) /\ map erase ts' = rest.
+Proof.
+  intros t ts rest Ht H Hr Hd. rewrite ftype_split, toks_app, <- app_assoc in H.
+  unfold parse_multimap_field.
+  assert (Hcase : (outer_dict t = [] /\ inner_ast t = ast_type t) \/
+                  (exists e d r, t = IArray e d r /\ d <> [] /\ ident_ok d = true /\ it_dict e <> [])).
+  { destruct t as [d|p d|n d|n d|n d|n d|e d r]; try (left; split; reflexivity).
+    cbn [ftype_ok] in Ht. apply andb_true_iff in Ht. destruct Ht as [_ Ht].
+    destruct d as [|c d]; [left; split; reflexivity|]. right. exists e, (c :: d), r.
+    cbn [is_nil orb andb] in Ht. apply andb_true_iff in Ht. destruct Ht as [H1 H2].
+    repeat split; try assumption; try discriminate. destruct (it_dict e); [discriminate H2 | discriminate]. }
+  destruct Hcase as [[Ho Ea]|(e & d & r & -> & Hdne & Hdok & Hene)].
+  - rewrite Ho in H. cbn [pc_dict toks flat_map app] in H.
+    destruct (P_ftype true t ts rest Ht H Hr (fun _ => Hd)) as (ts1 & E1 & H1).
+    rewrite E1. cbn [bind]. rewrite (is_hdk _ _ _ H1 Hr), (tkind_eqb_false _ _ Hd), Ea.
+    exists ts1. split; [reflexivity | exact H1].
+  - cbn [outer_dict] in H. rewrite toks_dict in H. destruct d as [|c d]; [contradiction|].
+    destruct (P_ftype true _ ts _ Ht H ltac:(discriminate)) as (ts1 & E1 & H1).
+    { cbn [inner_dict]. intros Hx. contradiction. }
+    rewrite E1. cbn [bind]. rewrite (is_hdk _ _ _ H1 ltac:(discriminate)).
+    change (tkind_eqb (hdk _) TkDict) with true. cbv iota.
+    destruct (P_dict (c :: d) ts1 rest Hdok H1 Hr) as (ts2 & E2 & H2). rewrite E2. cbn [bind].
+    exists ts2. split; [reflexivity | exact H2].
+Qed.
+
+Lemma toks_multimap : forall m, toks (pc_multimap m) =
+  [kw S_multimap; kw (im_name m); pu TkLBrace; kw S_key]
+  ++ toks (pc_type (im_key m) ++ pc_dict (it_dict (im_key m)))
+  ++ [kw S_value] ++ toks (pc_type (im_val m) ++ pc_dict (it_dict (im_val m))) ++ [pu TkRBrace].
+Proof.
+  intros m. unfold pc_multimap. rewrite !toks_app, <- !app_assoc. reflexivity.
+Qed.
+
+Lemma P_mmap : forall m ts sch rest, mmap_pr m = true ->
+  map erase ts = toks (pc_multimap m) ++ rest -> rest <> [] ->
+  top_level_used sch (im_name m) = false ->
+  exists ts', parse_multimap true ts sch = Ok (ts', ast_mmap m) /\ map erase ts' = rest.
+Proof.
+  intros m ts sch rest Hm H Hr Hu.
+  unfold mmap_pr in Hm. rewrite !andb_true_iff in Hm. destruct Hm as [[Hn Hk] Hv].
+  rewrite toks_multimap in H. rewrite <- !app_assoc in H. cbn [app] in H.
+  destruct (tok_inv _ _ _ _ _ H ltac:(discriminate)) as (t0 & ts0 & -> & _ & _ & _ & H0 & A0).
+  unfold parse_multimap. rewrite A0. unfold kw at 1 in H0. rewrite (ident_ok_kind _ Hn) in H0.
+  destruct (tok_inv _ _ _ _ _ H0 ltac:(discriminate)) as (t1 & ts1 & -> & K1 & I1 & _ & H1 & A1).
+  rewrite is_cons, K1. cbn [tkind_eqb tkind_code N.eqb Pos.eqb negb]. rewrite cur_cons, I1, Hu, A1.
+  destruct (eat_ok _ _ _ _ _ H1 ltac:(discriminate)) as (ts2 & E2 & H2). rewrite E2. cbn [bind].
+  unfold kw at 1 in H2. rewrite wk_key in H2.
+  destruct (eat_ok _ _ _ _ _ H2 ltac:(ne)) as (ts3 & E3 & H3). rewrite E3. cbn [bind].
+  destruct (P_mfield _ ts3 _ Hk H3 ltac:(discriminate) ltac:(discriminate)) as (ts4 & E4 & H4).
+  rewrite E4. cbn [bind]. unfold kw at 1 in H4. rewrite wk_value in H4.
+  destruct (eat_ok _ _ _ _ _ H4 ltac:(ne)) as (ts5 & E5 & H5). rewrite E5. cbn [bind].
+  destruct (P_mfield _ ts5 _ Hv H5 ltac:(discriminate) ltac:(discriminate)) as (ts6 & E6 & H6).
+  rewrite E6. cbn [bind app]. cbn [app] in H6.
+  destruct (eat_ok _ _ _ _ _ H6 Hr) as (ts7 & E7 & H7). rewrite E7. cbn [bind].
+  exists ts7. split; [reflexivity | exact H7].
+Qed.
+
+(* ---------- enum ---------- *)
+Definition tk_efield (f : str * N) : list atok := [kw (fst f); pu TkAssign; mkA TkIntNumber [] (snd f)].
+Definition tk_efields (fs : list (str * N)) : list atok := flat_map tk_efield fs.
+
+Lemma toks_enum : forall e, toks (pc_enum e) =
+  [kw S_enum; kw (ie_name e); pu TkLBrace] ++ tk_efields (ie_fields e) ++ [pu TkRBrace].
+Proof.
+  intros e. unfold pc_enum. rewrite !toks_app. f_equal. f_equal.
+  induction (ie_fields e) as [|f fs IH]; [reflexivity|].
+  cbn [flat_map tk_efields]. rewrite toks_app, IH. reflexivity.
+Qed.
+
+Lemma P_efields : forall fs fuel ts acc rest, forallb efield_ok fs = true ->
+  map erase ts = tk_efields fs ++ rest -> rest <> [] -> hdk rest = TkRBrace -> (length fs < fuel)%nat ->
+  exists ts', parse_enum_fields fuel ts acc = Ok (ts', acc ++ fs) /\ map erase ts' = rest.
+Proof.
+  induction fs as [|f fs IH]; intros fuel ts acc rest Hok H Hr Hk Hf.
+  - cbn [tk_efields flat_map app] in H. destruct fuel as [|fuel]; [cbn [length] in Hf; lia|].
+    cbn [parse_enum_fields]. unfold parse_enum_field.
+    rewrite (is_hdk _ _ _ H Hr), Hk. cbn [tkind_eqb tkind_code N.eqb Pos.eqb negb bind].
+    exists ts. rewrite app_nil_r. split; [reflexivity | exact H].
+  - cbn [forallb] in Hok. apply andb_true_iff in Hok. destruct Hok as [Hok1 Hok2].
+    unfold efield_ok in Hok1. apply andb_true_iff in Hok1. destruct Hok1 as [Hn _].
+    destruct fuel as [|fuel]; [cbn [length] in Hf; lia|].
+    cbn [tk_efields flat_map] in H. fold (tk_efields fs) in H. unfold tk_efield in H. cbn [app] in H.
+    unfold kw at 1 in H. rewrite (ident_ok_kind _ Hn) in H.
+    destruct (tok_inv _ _ _ _ _ H ltac:(discriminate)) as (t0 & ts0 & -> & K0 & I0 & _ & H0 & A0).
+    cbn [parse_enum_fields]. unfold parse_enum_field.
+    rewrite is_cons, K0. cbn [tkind_eqb tkind_code N.eqb Pos.eqb negb]. rewrite cur_cons, I0, A0.
+    destruct (eat_ok _ _ _ _ _ H0 ltac:(discriminate)) as (ts1 & E1 & H1). rewrite E1. cbn [bind].
+    destruct (tok_inv _ _ _ _ _ H1 ltac:(ne)) as (t2 & ts2 & -> & K2 & _ & N2 & H2 & A2).
+    rewrite is_cons, K2. cbn [tkind_eqb tkind_code N.eqb Pos.eqb negb]. rewrite cur_cons, N2, A2.
+    cbn [bind].
+    destruct (IH fuel ts2 (acc ++ [(fst f, snd f)]) rest Hok2 H2 Hr Hk ltac:(cbn [length] in Hf; lia))
+      as (ts3 & E3 & H3).
+    exists ts3. split; [|exact H3]. rewrite E3. rewrite <- app_assoc. destruct f. reflexivity.
+Qed.
+
+Lemma length_tk_efields : forall fs, (length fs <= length (tk_efields fs))%nat.
+Proof.
+  induction fs as [|f fs IH]; [cbn [tk_efields flat_map length]; lia|].
+  cbn [tk_efields flat_map]. fold (tk_efields fs). rewrite app_length. cbn [tk_efield length]. lia.
+Qed.
+
+Lemma P_enum : forall e fuel ts sch rest, enum_pr e = true ->
+  map erase ts = toks (pc_enum e) ++ rest -> rest <> [] ->
+  top_level_used sch (ie_name e) = false -> (length (ie_fields e) < fuel)%nat ->
+  exists ts', parse_enum fuel ts sch = Ok (ts', e) /\ map erase ts' = rest.
+Proof.
+  intros e fuel ts sch rest He H Hr Hu Hf.
+  unfold enum_pr in He. apply andb_true_iff in He. destruct He as [Hn Hfs].
+  rewrite toks_enum in H. rewrite <- !app_assoc in H. cbn [app] in H.
+  destruct (tok_inv _ _ _ _ _ H ltac:(discriminate)) as (t0 & ts0 & -> & _ & _ & _ & H0 & A0).
+  unfold parse_enum. rewrite A0. unfold kw at 1 in H0. rewrite (ident_ok_kind _ Hn) in H0.
+  destruct (tok_inv _ _ _ _ _ H0 ltac:(discriminate)) as (t1 & ts1 & -> & K1 & I1 & _ & H1 & A1).
+  rewrite is_cons, K1. cbn [tkind_eqb tkind_code N.eqb Pos.eqb negb]. rewrite cur_cons, I1, Hu, A1.
+  destruct (eat_ok _ _ _ _ _ H1 ltac:(ne)) as (ts2 & E2 & H2). rewrite E2. cbn [bind].
+  destruct (P_efields (ie_fields e) fuel ts2 [] _ Hfs H2 ltac:(discriminate) eq_refl Hf) as (ts3 & E3 & H3).
+  rewrite E3. cbn [bind app]. cbn [app] in H3.
+  destruct (eat_ok _ _ _ _ _ H3 Hr) as (ts4 & E4 & H4). rewrite E4. cbn [bind].
+  exists ts4. split; [|exact H4]. destruct e. reflexivity.
+Qed.
+
+(* ---------- definitions ---------- *)
+Inductive def := DE (e : iedef) | DM (m : imdef) | DS (s : isdef).
+Definition def_name (d : def) : str :=
+  match d with DE e => ie_name e | DM m => im_name m | DS s => is_name s end.
+Definition def_pr (d : def) : bool :=
+  match d with DE e => enum_pr e | DM m => mmap_pr m | DS s => struct_pr s end.
+Definition pc_def (d : def) : list piece :=
+  match d with DE e => pc_enum e | DM m => pc_multimap m | DS s => pc_struct s end.
+Definition add_def (sch : ischema) (d : def) : ischema :=
+  match d with
+  | DE e => add_enum sch e
+  | DM m => add_mmap sch (ast_mmap m)
+  | DS s => add_struct sch (ast_struct s)
+  end.
+Definition def_count (d : def) : nat :=
+  match d with DE e => length (ie_fields e) | DM _ => O | DS s => length (is_fields s) end.
+Definition def_kw (d : def) : tkind :=
+  match d with DE _ => TkEnum | DM _ => TkMultimap | DS s => if is_oneof s then TkOneof else TkStruct end.
+
+Lemma hdk_def : forall d l, hdk (toks (pc_def d) ++ l) = def_kw d.
+Proof.
+  intros [e|m|s] l; cbn [pc_def def_kw].
+  - rewrite toks_enum. reflexivity.
+  - rewrite toks_multimap. reflexivity.
+  - rewrite toks_struct. unfold tk_struct_head. destruct (is_oneof s); reflexivity.
+Qed.
+
+Lemma def_count_le : forall d, (def_count d <= length (toks (pc_def d)))%nat.
+Proof.
+  intros [e|m|s]; cbn [pc_def def_count]; [| lia |].
+  - rewrite toks_enum, !app_length. pose proof (length_tk_efields (ie_fields e)). lia.
+  - rewrite toks_struct, !app_length. pose proof (length_tk_fields (is_fields s)). lia.
+Qed.
+
+Lemma def_toks_pos : forall d, (1 <= length (toks (pc_def d)))%nat.
+Proof.
+  intros [e|m|s]; cbn [pc_def].
+  - rewrite toks_enum. cbn [app length]. lia.
+  - rewrite toks_multimap. cbn [app length]. lia.
+  - rewrite toks_struct, !app_length. cbn [length]. lia.
+Qed.
+
+Lemma tlu_false : forall sch n, ~ In n (top_names sch) -> top_level_used sch n = false.
+Proof.
+  intros sch n H. unfold top_level_used, top_names in *. rewrite !in_app_iff in H.
+  destruct (has_struct sch n) eqn:E1; [apply has_struct_in in E1; tauto|].
+  destruct (has_mmap sch n) eqn:E2; [apply has_mmap_in in E2; tauto|].
+  destruct (has_enum sch n) eqn:E3; [apply has_enum_in in E3; tauto|]. reflexivity.
+Qed.
+
+Lemma top_names_add : forall sch d n,
+  In n (top_names (add_def sch d)) <-> In n (top_names sch) \/ n = def_name d.
+Proof.
+  intros sch [e|m|s] n; unfold top_names;
+    cbn [add_def add_enum add_mmap add_struct i_structs i_mmaps i_enums def_name];
+    rewrite ?map_app, !in_app_iff; cbn [map In ast_mmap ast_struct im_name is_name]; intuition.
+Qed.
+
+Lemma P_def : forall d fuel ts sch rest, def_pr d = true ->
+  map erase ts = toks (pc_def d) ++ rest -> rest <> [] ->
+  ~ In (def_name d) (top_names sch) -> (2 <= fuel)%nat -> (def_count d < fuel)%nat ->
+  exists ts', parse_def true fuel ts sch = Ok (ts', add_def sch d) /\ map erase ts' = rest.
+Proof.
+  intros d fuel ts sch rest Hd H Hr Hn Hf2 Hf. apply tlu_false in Hn.
+  unfold parse_def. rewrite (kind_hdk _ _ H ltac:(ne)), hdk_def.
+  destruct d as [e|m|s]; cbn [def_kw pc_def def_pr def_name def_count add_def] in *.
+  - destruct (P_enum e fuel ts sch rest Hd H Hr Hn Hf) as (ts' & E & H'). rewrite E. cbn [bind].
+    exists ts'. split; [reflexivity | exact H'].
+  - destruct (P_mmap m ts sch rest Hd H Hr Hn) as (ts' & E & H'). rewrite E. cbn [bind].
+    exists ts'. split; [reflexivity | exact H'].
+  - destruct (P_struct s fuel ts sch rest Hd H Hr Hn Hf2 Hf) as (ts' & E & H').
+    destruct (is_oneof s); rewrite E; cbn [bind]; exists ts'; (split; [reflexivity | exact H']).
+Qed.
+
+Definition tk_defs (ds : list def) : list atok := flat_map (fun d => toks (pc_def d)) ds.
+
+Lemma P_defs : forall ds fuel0 fuel ts sch, ds <> [] -> forallb def_pr ds = true ->
+  map erase ts = tk_defs ds ++ [a_eof] ->
+  NoDup (map def_name ds) -> (forall d, In d ds -> ~ In (def_name d) (top_names sch)) ->
+  (2 <= fuel0)%nat -> (forall d, In d ds -> (def_count d < fuel0)%nat) -> (length ds <= fuel)%nat ->
+  exists ts', parse_defs true fuel0 fuel ts sch = Ok (ts', fold_left add_def ds sch)
+              /\ map erase ts' = [a_eof].
+Proof.
+  induction ds as [|d ds IH]; intros fuel0 fuel ts sch Hne Hpr H Hnd Hfresh Hf2 Hcnt Hf; [contradiction|].
+  cbn [forallb] in Hpr. apply andb_true_iff in Hpr. destruct Hpr as [Hpr1 Hpr2].
+  destruct fuel as [|fuel]; [cbn [length] in Hf; lia|].
+  cbn [tk_defs flat_map] in H. fold (tk_defs ds) in H. rewrite <- app_assoc in H.
+  destruct (P_def d fuel0 ts sch _ Hpr1 H ltac:(ne)) as (ts1 & E1 & H1);
+    [apply Hfresh; now left | exact Hf2 | apply Hcnt; now left |].
+  cbn [parse_defs]. rewrite E1. cbn [bind fold_left].
+  destruct ds as [|d' ds'].
+  - cbn [tk_defs flat_map app] in H1. rewrite (is_hdk _ _ _ H1 ltac:(discriminate)).
+    cbn [hdk hd a_eof a_kind tkind_eqb tkind_code N.eqb Pos.eqb].
+    exists ts1. split; [reflexivity | exact H1].
+  - rewrite (is_hdk _ _ _ H1 ltac:(ne)).
+    cbn [tk_defs flat_map]. rewrite <- app_assoc, hdk_def.
+    assert (Hkw : tkind_eqb (def_kw d') TkEOF = false) by (destruct d' as [?|?|s']; cbn [def_kw]; try destruct (is_oneof s'); reflexivity).
+    rewrite Hkw.
+    inversion Hnd as [|? ? Hnotin Hnd']; subst.
+    apply IH; try assumption.
+    + discriminate.
+    + intros d0 Hin Hc. apply top_names_add in Hc. destruct Hc as [Hc|Hc].
+      * eapply Hfresh; [right; exact Hin | exact Hc].
+      * apply Hnotin. rewrite <- Hc. change (In (def_name d0) (map def_name (d' :: ds'))). apply in_map. exact Hin.
+    + intros d0 Hin. apply Hcnt. now right.
+    + cbn [length] in *. lia.
+Qed.
+
+(* ---------- package ---------- *)
+Definition tk_pkg (pkg : list str) : list atok := toks (pjoin [PPu 46 TkDot] (map (fun c => [PWord c]) pkg)).
+
+Lemma P_pkg : forall pkg fuel ts acc rest, pkg <> [] -> forallb ident_ok pkg = true ->
+  map erase ts = tk_pkg pkg ++ rest -> rest <> [] -> hdk rest <> TkDot -> (length pkg <= fuel)%nat ->
+  exists ts', parse_pkg_loop fuel ts acc = Ok (ts', acc ++ pkg) /\ map erase ts' = rest.
+Proof.
+  induction pkg as [|c pkg IH]; intros fuel ts acc rest Hne Hok H Hr Hk Hf; [contradiction|].
+  cbn [forallb] in Hok. apply andb_true_iff in Hok. destruct Hok as [Hc Hok].
+  destruct fuel as [|fuel]; [cbn [length] in Hf; lia|].
+  destruct pkg as [|c' pkg'].
+  - change (tk_pkg [c]) with [kw c] in H. cbn [app] in H. unfold kw in H. rewrite (ident_ok_kind _ Hc) in H.
+    destruct (tok_inv _ _ _ _ _ H Hr) as (t0 & ts0 & -> & K0 & I0 & _ & H0 & A0).
+    cbn [parse_pkg_loop]. rewrite is_cons, K0. cbn [tkind_eqb tkind_code N.eqb Pos.eqb negb].
+    rewrite cur_cons, I0, A0, (is_hdk _ _ _ H0 Hr), (tkind_eqb_false _ _ Hk). cbn [negb].
+    exists ts0. split; [reflexivity | exact H0].
+  - change (tk_pkg (c :: c' :: pkg')) with (kw c :: pu TkDot :: tk_pkg (c' :: pkg')) in H.
+    cbn [app] in H. unfold kw at 1 in H. rewrite (ident_ok_kind _ Hc) in H.
+    destruct (tok_inv _ _ _ _ _ H ltac:(discriminate)) as (t0 & ts0 & -> & K0 & I0 & _ & H0 & A0).
+    cbn [parse_pkg_loop]. rewrite is_cons, K0. cbn [tkind_eqb tkind_code N.eqb Pos.eqb negb].
+    rewrite cur_cons, I0, A0.
+    destruct (tok_inv _ _ _ _ _ H0 ltac:(ne)) as (t1 & ts1 & -> & K1 & _ & _ & H1 & A1).
+    rewrite is_cons, K1. cbn [tkind_eqb tkind_code N.eqb Pos.eqb negb]. rewrite A1.
+    destruct (IH fuel ts1 (acc ++ [c]) rest ltac:(discriminate) Hok H1 Hr Hk ltac:(cbn [length] in *; lia))
+      as (ts2 & E2 & H2).
+    exists ts2. split; [|exact H2]. rewrite E2, <- app_assoc. reflexivity.
+Qed.
+
+Lemma length_tk_pkg : forall pkg, (length pkg <= length (tk_pkg pkg))%nat.
+Proof.
+  induction pkg as [|c pkg IH]; [apply Nat.le_0_l|].
+  destruct pkg as [|c' pkg']; [change (tk_pkg [c]) with [kw c]; cbn [length]; lia|].
+  change (tk_pkg (c :: c' :: pkg')) with (kw c :: pu TkDot :: tk_pkg (c' :: pkg')).
+  cbn [length] in *. lia.
+Qed.
+
+(* ---------- the whole token list ---------- *)
+Lemma toks_pjoin : forall sep l, toks sep = [] -> toks (pjoin sep l) = flat_map toks l.
+Proof.
+  intros sep l Hs. induction l as [|x l IH]; [reflexivity|].
+  destruct l as [|y l]; [cbn [pjoin flat_map]; rewrite app_nil_r; reflexivity|].
+  change (pjoin sep (x :: y :: l)) with (x ++ sep ++ pjoin sep (y :: l)).
+  rewrite !toks_app, Hs, IH. reflexivity.
+Qed.
+
+Definition defs_of (es : list iedef) (ms : list imdef) (ss : list isdef) : list def :=
+  map DE es ++ map DM ms ++ map DS ss.
+
+Lemma pc_defs_of : forall es ms ss, pc_defs es ms ss = map pc_def (defs_of es ms ss).
+Proof. intros. unfold pc_defs, defs_of. rewrite !map_app, !map_map. reflexivity. Qed.
+
+Lemma schema_tokens_eq : forall s,
+  schema_tokens s = kw S_package :: tk_pkg (i_pkg s)
+                    ++ tk_defs (defs_of (sorted_enums s) (sorted_mmaps s) (sorted_structs s)).
+Proof.
+  intros s. unfold schema_tokens, pc_schema. rewrite toks_pjoin by reflexivity.
+  cbn [flat_map]. rewrite pc_defs_of. unfold pc_pkg. rewrite toks_app. cbn [toks flat_map tok1 app].
+  f_equal. change (tok1 sp ++ []) with (@nil atok). cbn [app]. unfold tk_pkg, tk_defs. f_equal.
+  induction (defs_of (sorted_enums s) (sorted_mmaps s) (sorted_structs s)) as [|d l IH]; [reflexivity|].
+  cbn [map flat_map]. rewrite IH. reflexivity.
+Qed.
+
+Lemma fold_add_defs : forall es ms ss sch,
+  fold_left add_def (defs_of es ms ss) sch =
+  mkISchema (i_pkg sch) (i_structs sch ++ map ast_struct ss) (i_mmaps sch ++ map ast_mmap ms) (i_enums sch ++ es).
+Proof.
+  intros es ms ss sch. unfold defs_of. rewrite !fold_left_app.
+  assert (He : forall es sch, fold_left add_def (map DE es) sch =
+            mkISchema (i_pkg sch) (i_structs sch) (i_mmaps sch) (i_enums sch ++ es)).
+  { induction es0 as [|e es0 IH]; intros sch0; [cbn [map fold_left]; rewrite app_nil_r; destruct sch0; reflexivity|].
+    cbn [map fold_left]. rewrite IH. cbn [add_def add_enum i_pkg i_structs i_mmaps i_enums].
+    rewrite <- app_assoc. reflexivity. }
+  assert (Hm : forall ms sch, fold_left add_def (map DM ms) sch =
+            mkISchema (i_pkg sch) (i_structs sch) (i_mmaps sch ++ map ast_mmap ms) (i_enums sch)).
+  { induction ms0 as [|m ms0 IH]; intros sch0; [cbn [map fold_left]; rewrite app_nil_r; destruct sch0; reflexivity|].
+    cbn [map fold_left]. rewrite IH. cbn [add_def add_mmap i_pkg i_structs i_mmaps i_enums].
+    rewrite <- app_assoc. reflexivity. }
+  assert (Hs : forall ss sch, fold_left add_def (map DS ss) sch =
+            mkISchema (i_pkg sch) (i_structs sch ++ map ast_struct ss) (i_mmaps sch) (i_enums sch)).
+  { induction ss0 as [|s ss0 IH]; intros sch0; [cbn [map fold_left]; rewrite app_nil_r; destruct sch0; reflexivity|].
+    cbn [map fold_left]. rewrite IH. cbn [add_def add_struct i_pkg i_structs i_mmaps i_enums].
+    rewrite <- app_assoc. reflexivity. }
+  rewrite He, Hm, Hs. reflexivity.
+Qed.
+
+(* ---------- sort_str ---------- *)
+Lemma In_insert_str : forall n l x, In x (insert_str n l) <-> x = n \/ In x l.
+Proof.
+  intros n l x. induction l as [|y l IH]; cbn [insert_str In]; [intuition|].
+  destruct (str_ltb n y); cbn [In]; [intuition | rewrite IH; intuition].
+Qed.
+
+Lemma In_sort_str : forall l x, In x (sort_str l) <-> In x l.
+Proof.
+  induction l as [|y l IH]; intros x; cbn [sort_str fold_right In]; [tauto|].
+  fold (sort_str l). rewrite In_insert_str, IH. intuition.
+Qed.
+
+Lemma NoDup_insert_str : forall n l, NoDup l -> ~ In n l -> NoDup (insert_str n l).
+Proof.
+  intros n l. induction l as [|y l IH]; intros Hnd Hn; cbn [insert_str]; [repeat constructor; auto|].
+  destruct (str_ltb n y); [constructor; assumption|].
+  inversion Hnd; subst. constructor.
+  - rewrite In_insert_str. cbn [In] in Hn. intuition.
+  - apply IH; [assumption | cbn [In] in Hn; tauto].
+Qed.
+
+Lemma NoDup_sort_str : forall l, NoDup l -> NoDup (sort_str l).
+Proof.
+  induction l as [|y l IH]; intros H; [constructor|].
+  inversion H; subst. cbn [sort_str fold_right]. fold (sort_str l).
+  apply NoDup_insert_str; [auto | rewrite In_sort_str; assumption].
+Qed.
+
+Lemma length_insert_str : forall n l, length (insert_str n l) = S (length l).
+Proof. intros n l. induction l as [|y l IH]; cbn [insert_str]; [reflexivity|]. destruct (str_ltb n y); cbn [length]; congruence. Qed.
+
+Lemma length_sort_str : forall l, length (sort_str l) = length l.
+Proof.
+  induction l as [|y l IH]; [reflexivity|]. cbn [sort_str fold_right]. fold (sort_str l).
+  rewrite length_insert_str, IH. reflexivity.
+Qed.
+
+Lemma find_enum_Some : forall l n ed, find_enum l n = Some ed -> In ed l /\ ie_name ed = n.
+Proof.
+  induction l as [|s t IH]; intros n md H; cbn [find_enum] in H; [discriminate|].
+  destruct (str_eqb (ie_name s) n) eqn:E.
+  - inversion H; subst. apply str_eqb_eq in E. split; [now left | assumption].
+  - apply IH in H. destruct H. split; [now right | assumption].
+Qed.
+
+Lemma find_struct_name_in : forall l n, In n (map is_name l) -> exists sd, find_struct l n = Some sd.
+Proof.
+  induction l as [|s l IH]; intros n H; [contradiction|]. cbn [find_struct].
+  destruct (str_eqb (is_name s) n) eqn:E; [eauto|]. destruct H as [H|H]; [|auto].
+  cbn [map In] in H. subst. rewrite str_eqb_refl in E. discriminate.
+Qed.
+Lemma find_mmap_name_in : forall l n, In n (map im_name l) -> exists sd, find_mmap l n = Some sd.
+Proof.
+  induction l as [|s l IH]; intros n H; [contradiction|]. cbn [find_mmap].
+  destruct (str_eqb (im_name s) n) eqn:E; [eauto|]. destruct H as [H|H]; [|auto].
+  cbn [map In] in H. subst. rewrite str_eqb_refl in E. discriminate.
+Qed.
+Lemma find_enum_name_in : forall l n, In n (map ie_name l) -> exists sd, find_enum l n = Some sd.
+Proof.
+  induction l as [|s l IH]; intros n H; [contradiction|]. cbn [find_enum].
+  destruct (str_eqb (ie_name s) n) eqn:E; [eauto|]. destruct H as [H|H]; [|auto].
+  cbn [map In] in H. subst. rewrite str_eqb_refl in E. discriminate.
+Qed.
+
+Lemma sorted_structs_names : forall s, map is_name (sorted_structs s) = sort_str (map is_name (i_structs s)).
+Proof.
+  intros s. unfold sorted_structs.
+  assert (H : forall names, (forall n, In n names -> In n (map is_name (i_structs s))) ->
+    map is_name (flat_map (fun n => match find_struct (i_structs s) n with Some sd => [sd] | None => [] end) names) = names).
+  { induction names as [|n names IH]; intros Hin; [reflexivity|]. cbn [flat_map]. rewrite map_app, IH by (intros; apply Hin; now right).
+    destruct (find_struct_name_in _ n (Hin n (or_introl eq_refl))) as [sd E]. rewrite E.
+    apply find_struct_Some in E. destruct E as [_ E]. cbn [map app]. rewrite E. reflexivity. }
+  apply H. intros n Hn. rewrite In_sort_str in Hn. exact Hn.
+Qed.
+Lemma sorted_mmaps_names : forall s, map im_name (sorted_mmaps s) = sort_str (map im_name (i_mmaps s)).
+Proof.
+  intros s. unfold sorted_mmaps.
+  assert (H : forall names, (forall n, In n names -> In n (map im_name (i_mmaps s))) ->
+    map im_name (flat_map (fun n => match find_mmap (i_mmaps s) n with Some sd => [sd] | None => [] end) names) = names).
+  { induction names as [|n names IH]; intros Hin; [reflexivity|]. cbn [flat_map]. rewrite map_app, IH by (intros; apply Hin; now right).
+    destruct (find_mmap_name_in _ n (Hin n (or_introl eq_refl))) as [sd E]. rewrite E.
+    apply find_mmap_Some in E. destruct E as [_ E]. cbn [map app]. rewrite E. reflexivity. }
+  apply H. intros n Hn. rewrite In_sort_str in Hn. exact Hn.
+Qed.
+Lemma sorted_enums_names : forall s, map ie_name (sorted_enums s) = sort_str (map ie_name (i_enums s)).
+Proof.
+  intros s. unfold sorted_enums.
+  assert (H : forall names, (forall n, In n names -> In n (map ie_name (i_enums s))) ->
+    map ie_name (flat_map (fun n => match find_enum (i_enums s) n with Some sd => [sd] | None => [] end) names) = names).
+  { induction names as [|n names IH]; intros Hin; [reflexivity|]. cbn [flat_map]. rewrite map_app, IH by (intros; apply Hin; now right).
+    destruct (find_enum_name_in _ n (Hin n (or_introl eq_refl))) as [sd E]. rewrite E.
+    apply find_enum_Some in E. destruct E as [_ E]. cbn [map app]. rewrite E. reflexivity. }
+  apply H. intros n Hn. rewrite In_sort_str in Hn. exact Hn.
+Qed.
+
+Lemma NoDup_app_iff : forall A (a b : list A),
+  NoDup (a ++ b) <-> NoDup a /\ NoDup b /\ (forall x, In x a -> In x b -> False).
+Proof.
+  intros A a b. induction a as [|x a IH]; cbn [app].
+  - split; [intros H; repeat split; [constructor | exact H | intros x []] | tauto].
+  - split.
+    + intros H. inversion H as [|? ? Hn Hnd]; subst. apply IH in Hnd. destruct Hnd as (H1 & H2 & H3).
+      rewrite in_app_iff in Hn. repeat split; [constructor; tauto | exact H2 |].
+      intros y [<-|Hy] Hb; [tauto | eauto].
+    + intros (H1 & H2 & H3). inversion H1; subst. constructor.
+      * rewrite in_app_iff. intros [Hx|Hx]; [contradiction | apply (H3 x); [now left | exact Hx]].
+      * apply IH. repeat split; try assumption. intros y Hy Hb. apply (H3 y); [now right | exact Hb].
+Qed.
+
+Lemma def_names_of : forall es ms ss,
+  map def_name (defs_of es ms ss) = map ie_name es ++ map im_name ms ++ map is_name ss.
+Proof. intros. unfold defs_of. rewrite !map_app, !map_map. reflexivity. Qed.
+
+Lemma sorted_def_names_nodup : forall s, NoDup (all_names s) ->
+  NoDup (map def_name (defs_of (sorted_enums s) (sorted_mmaps s) (sorted_structs s))).
+Proof.
+  intros s H. rewrite def_names_of, sorted_enums_names, sorted_mmaps_names, sorted_structs_names.
+  unfold all_names in H. apply NoDup_app_iff in H. destruct H as (HS & H & HSx).
+  apply NoDup_app_iff in H. destruct H as (HM & HE & HMx).
+  apply NoDup_app_iff. split; [apply NoDup_sort_str; exact HE|]. split.
+  - apply NoDup_app_iff. split; [apply NoDup_sort_str; exact HM|]. split; [apply NoDup_sort_str; exact HS|].
+    intros x Hx Hy. rewrite In_sort_str in Hx. rewrite In_sort_str in Hy. apply (HSx x Hy). apply in_or_app. now left.
+  - intros x Hx Hy. rewrite In_sort_str in Hx. apply in_app_iff in Hy. destruct Hy as [Hy|Hy]; rewrite In_sort_str in Hy.
+    + apply (HMx x Hy Hx).
+    + apply (HSx x Hy). apply in_or_app. now right.
+Qed.
+
+Lemma tk_defs_len_in : forall ds d, In d ds -> (length (toks (pc_def d)) <= length (tk_defs ds))%nat.
+Proof.
+  induction ds as [|d0 ds IH]; intros d H; [contradiction|].
+  cbn [tk_defs flat_map]. fold (tk_defs ds). rewrite app_length.
+  destruct H as [->|H]; [lia | specialize (IH d H); lia].
+Qed.
+
+Lemma tk_defs_len : forall ds, (length ds <= length (tk_defs ds))%nat.
+Proof.
+  induction ds as [|d0 ds IH]; [cbn [tk_defs flat_map length]; lia|].
+  cbn [tk_defs flat_map]. fold (tk_defs ds). rewrite app_length. pose proof (def_toks_pos d0). cbn [length]. lia.
+Qed.
+
+(* (a): the parser on the tokens of a printable schema, whatever positions they carry *)
+Theorem parse_schema_tokens : forall s ts, printable s = true ->
+  map erase ts = schema_tokens s ++ [a_eof] ->
+  exists ts', parse_tokens true ts = Ok (ts', ast_schema s) /\ map erase ts' = [a_eof].
+Proof.
+  intros s ts Hp H. unfold printable in Hp. rewrite !andb_true_iff in Hp.
+  destruct Hp as [[[[[[Hpne Hpkg] Hss] Hms] Hes] Hnd] Hne].
+  apply nodup_str_NoDup in Hnd.
+  set (ds := defs_of (sorted_enums s) (sorted_mmaps s) (sorted_structs s)).
+  assert (Hds_ne : ds <> []).
+  { intros E. assert (El : length (map def_name ds) = O) by (rewrite E; reflexivity).
+    unfold ds in El. rewrite def_names_of, sorted_enums_names, sorted_mmaps_names, sorted_structs_names in El.
+    rewrite !app_length, !length_sort_str in El.
+    unfold all_names in Hne. destruct (i_structs s), (i_mmaps s), (i_enums s); cbn [map app length is_nil negb] in El, Hne; try lia; discriminate. }
+  assert (Hds_pr : forallb def_pr ds = true).
+  { apply forallb_forall. intros d Hd. unfold ds, defs_of in Hd. rewrite !in_app_iff, !in_map_iff in Hd.
+    rewrite forallb_forall in Hss, Hms, Hes.
+    destruct Hd as [[e [<- Hin]]|[[m [<- Hin]]|[sd [<- Hin]]]]; cbn [def_pr].
+    - apply Hes, sorted_enums_in, Hin.
+    - apply Hms, sorted_mmaps_in, Hin.
+    - apply Hss, sorted_structs_in, Hin. }
+  rewrite schema_tokens_eq in H. fold ds in H. cbn [app] in H. rewrite <- app_assoc in H.
+  assert (Hlen : length ts = S (length (tk_pkg (i_pkg s)) + length (tk_defs ds) + 1)).
+  { rewrite <- (map_length erase), H. cbn [length]. rewrite !app_length. cbn [length]. lia. }
+  unfold parse_tokens, parse_package.
+  unfold kw at 1 in H. rewrite wk_package in H.
+  destruct (eat_ok _ _ _ _ _ H ltac:(ne)) as (ts1 & E1 & H1). rewrite E1. cbn [bind].
+  assert (Hdot : hdk (tk_defs ds ++ [a_eof]) <> TkDot).
+  { destruct ds as [|d ds']; [contradiction|]. cbn [tk_defs flat_map]. rewrite <- app_assoc, hdk_def.
+    destruct d as [?|?|sd]; cbn [def_kw]; try destruct (is_oneof sd); discriminate. }
+  assert (Hpn : i_pkg s <> []) by (destruct (i_pkg s); [discriminate Hpne | discriminate]).
+  assert (Hpl : (length (i_pkg s) <= S (length ts))%nat) by (pose proof (length_tk_pkg (i_pkg s)); lia).
+  destruct (P_pkg (i_pkg s) (S (length ts)) ts1 [] (tk_defs ds ++ [a_eof]) Hpn Hpkg H1 ltac:(ne) Hdot Hpl)
+    as (ts2 & E2 & H2).
+  rewrite E2. cbn [bind app].
+  destruct (P_defs ds (S (length ts)) (S (length ts)) ts2 (mkISchema (i_pkg s) [] [] []) Hds_ne Hds_pr H2)
+    as (ts3 & E3 & H3).
+  - apply sorted_def_names_nodup. exact Hnd.
+  - intros d _ Hin. exact Hin.
+  - lia.
+  - intros d Hd. pose proof (def_count_le d). pose proof (tk_defs_len_in ds d Hd). lia.
+  - pose proof (tk_defs_len ds). lia.
+  - exists ts3. split; [|exact H3]. rewrite E3. unfold ds. rewrite fold_add_defs. reflexivity.
+Qed.
+
+Print Assumptions parse_schema_tokens.
